@@ -306,3 +306,83 @@ func TwoTargetsEach(want func(i int) bool, f func(i int, fs FileSet)) int {
 	}
 	return n
 }
+
+// SweepFileSetsEach: module file sets with ONE dimension scaled to n - files extending one type (a conflict between a middle
+// and a late one, or none), relations added by one extension (a later file clashing with the first, the middle, the last,
+// or none), extend blocks in one file (the middle one clashing), types in one file (the middle one defined again elsewhere),
+// conditions in one file (the middle one defined again elsewhere). Names and files in scrambled order.
+func SweepFileSetsEach(sizes []int, want func(i int) bool, f func(i int, fs FileSet)) int {
+	k := 0
+	emit := func(tag string, files []FileSpec) {
+		if want == nil || want(k) {
+			f(k, FileSet{Tag: tag, Files: files})
+		}
+		k++
+	}
+	mod := func(name, module string, ts []ref.TypeDef, cs []ref.Condition) FileSpec {
+		return FileSpec{Name: name, M: &ref.Model{Module: module, Types: ts, Conds: cs}}
+	}
+	user := ref.TypeDef{Name: "user"}
+	for _, n := range sizes {
+		// (a) n files extending t1
+		for _, conflict := range []string{"none", "middle-and-last", "second-and-middle"} {
+			files := []FileSpec{mod("a.fga", "ma", []ref.TypeDef{user, {Name: "t1", Rels: []ref.Relation{rel("r0")}}}, nil)}
+			order := scramble(n)
+			for i, x := range order {
+				name := fmt.Sprintf("e%03d", x)
+				if conflict == "middle-and-last" && i == n-1 {
+					name = fmt.Sprintf("e%03d", order[n/2])
+				}
+				if conflict == "second-and-middle" && i == n/2 {
+					name = fmt.Sprintf("e%03d", order[1])
+				}
+				files = append(files, mod(fmt.Sprintf("f%03d.fga", x), fmt.Sprintf("m%03d", x), []ref.TypeDef{{Name: "t1", Extend: true, Rels: []ref.Relation{rel(name)}}}, nil))
+			}
+			emit(fmt.Sprintf("sweep: %d files extending one type, conflict %s", n, conflict), files)
+		}
+		// (b) one extension with n relations, a later file clashing
+		for _, clash := range []string{"none", "first", "middle", "last"} {
+			var rels []ref.Relation
+			for _, x := range scramble(n) {
+				rels = append(rels, rel(fmt.Sprintf("e%03d", x)))
+			}
+			files := []FileSpec{
+				mod("a.fga", "ma", []ref.TypeDef{user, {Name: "t1", Rels: []ref.Relation{rel("r0")}}}, nil),
+				mod("b.fga", "mb", []ref.TypeDef{{Name: "t1", Extend: true, Rels: rels}}, nil),
+			}
+			late := map[string]string{"none": "zz_fresh", "first": "e000", "middle": fmt.Sprintf("e%03d", n/2), "last": fmt.Sprintf("e%03d", n-1)}[clash]
+			files = append(files, mod("c.fga", "mc", []ref.TypeDef{{Name: "t1", Extend: true, Rels: []ref.Relation{rel("aa_first"), rel(late)}}}, nil))
+			emit(fmt.Sprintf("sweep: one extension with %d relations, a later file clashing with %s", n, clash), files)
+		}
+		// (c) n extend blocks in one file, the middle one clashing with its base
+		{
+			var bases, exts []ref.TypeDef
+			bases = append(bases, user)
+			for i, x := range scramble(n) {
+				t := fmt.Sprintf("t%03d", x)
+				bases = append(bases, ref.TypeDef{Name: t, Rels: []ref.Relation{rel("q")}})
+				add := "x"
+				if i == n/2 {
+					add = "q"
+				}
+				exts = append(exts, ref.TypeDef{Name: t, Extend: true, Rels: []ref.Relation{rel(add)}})
+			}
+			emit(fmt.Sprintf("sweep: %d extend blocks in one file, the middle one clashing", n), []FileSpec{mod("a.fga", "ma", bases, nil), mod("b.fga", "mb", exts, nil)})
+		}
+		// (d) n types, the middle one defined again; (e) n conditions, the middle one defined again
+		{
+			var ts []ref.TypeDef
+			var cs []ref.Condition
+			ts = append(ts, user)
+			for _, x := range scramble(n) {
+				ts = append(ts, ref.TypeDef{Name: fmt.Sprintf("t%03d", x), Rels: []ref.Relation{rel("q")}})
+				cs = append(cs, ref.Condition{Name: fmt.Sprintf("c%03d", x), Params: []ref.Param{{Name: "x", Type: "int"}}, Expr: "x < 1"})
+			}
+			emit(fmt.Sprintf("sweep: %d types in one file, the middle one defined again", n), []FileSpec{mod("a.fga", "ma", ts, nil),
+				mod("b.fga", "mb", []ref.TypeDef{{Name: "other"}, {Name: fmt.Sprintf("t%03d", n/2)}}, nil)})
+			emit(fmt.Sprintf("sweep: %d conditions in one file, the middle one defined again", n), []FileSpec{mod("a.fga", "ma", []ref.TypeDef{user}, cs),
+				mod("b.fga", "mb", []ref.TypeDef{{Name: "other"}}, []ref.Condition{{Name: fmt.Sprintf("c%03d", n/2), Params: []ref.Param{{Name: "y", Type: "string"}}, Expr: "y == y"}})})
+		}
+	}
+	return k
+}
